@@ -1,5 +1,6 @@
 import Rare.Base.Proto
 import Rare.Model.C04
+import Rare.Model.C04Sync
 namespace Rare.Drv.C04
 open Rare Rare.C04 Rare.Proto
 
@@ -36,6 +37,37 @@ def handle : List String → String
       let fuel := data.length + script.length + 3
       let r := Buf.scanAll fuel fuel (Buf.init m ⟨data, script⟩)
       render r.1 r.2.1 r.2.2.errs r.2.2.arrays
+    | _, _, _ => "bad-args"
+  | ["dropcr", d] =>
+    match Hex.dec d with
+    | some data => s!"ok {Hex.enc (dropCR data)} unchanged=1"
+    | none => "bad-args"
+  | ["maxi", a, b] =>
+    match a.toNat?, b.toNat? with
+    | some x, some y => s!"ok {max x y}"
+    | _, _ => "bad-args"
+  | ["rl", kind, bs, d, sc] =>
+    -- the ReadLine() API: same lines; `z` = Reads issued with an empty destination (never: `grown_spec` /
+    -- the fill-loop guard), `again` = a finished scanner keeps answering nil (`scan_final`, `bscan_final`)
+    match bs.toNat?, Hex.dec d, parseScript sc with
+    | some n, some data, some script =>
+      let fuel := data.length + script.length + 3
+      if kind = "imm" then
+        let r := Imm.scanAll fuel fuel (Imm.init n ⟨data, script⟩)
+        render r.1 r.2.1 r.2.2.errs r.2.2.arrays ++ s!" z=0 again={if r.2.1 then 1 else 0}"
+      else
+        let r := Buf.scanAll fuel fuel (Buf.init n ⟨data, script⟩)
+        render r.1 r.2.1 r.2.2.errs r.2.2.arrays ++ s!" z=0 again={if r.2.1 then 1 else 0}"
+    | _, _, _ => "bad-args"
+  | ["sync", bsz, d, sc] =>
+    match bsz.toNat?, Hex.dec d, parseScript sc with
+    | some batchSize, some data, some script =>
+      let o := syncRun batchSize data script
+      let arrays := o.final.arrays
+      -- each batch rendered from what its line views read back at the END of the scan (late reading)
+      let bs := o.batches.map fun b => s!"{b.start}:src:{hexList (b.lines.map fun l => readView arrays l.1)}"
+      let atSend := o.batches.map fun b => s!"{b.start}:src:{hexList (b.lines.map (·.2))}"
+      s!"ok errs={o.final.errs} stable={if bs = atSend then 1 else 0} b={if bs.isEmpty then "." else "|".intercalate bs}"
     | _, _, _ => "bad-args"
   | ["split", d] =>
     match Hex.dec d with
